@@ -36,3 +36,10 @@ pub mod f7 {
 pub mod i1 {
     include!("i1_isolation.rs");
 }
+#[cfg(feature = "collections")]
+pub mod v1 {
+    include!("v1_vec.rs");
+}
+pub mod e1 {
+    include!("e1_overflow.rs");
+}
